@@ -31,6 +31,25 @@ def _align(base, cur):
     s = 0
     while s < n - p and s < k - p and base[n - 1 - s] == cur[k - 1 - s]:
         s += 1
+    # pure deletion / pure insertion: the block can often be slid to the left (repeated tokens such as
+    # `self . expires .`); prefer the position where it starts right after a statement boundary
+    BOUND = (";", "{", "}", ",")
+    if p + s == k and n > k:          # tokens deleted from base
+        d = n - k
+        shift = 0
+        while p - shift - 1 >= 0 and base[p - shift - 1] == base[p - shift - 1 + d]:
+            shift += 1
+            if p - shift - 1 >= 0 and base[p - shift - 1] in BOUND:
+                p, s = p - shift, s + shift
+                break
+    elif p + s == n and k > n:        # tokens inserted into cur
+        d = k - n
+        shift = 0
+        while p - shift - 1 >= 0 and cur[p - shift - 1] == cur[p - shift - 1 + d]:
+            shift += 1
+            if p - shift - 1 >= 0 and cur[p - shift - 1] in BOUND:
+                p, s = p - shift, s + shift
+                break
     m = [None] * n
     for i in range(p):
         m[i] = i
@@ -50,7 +69,7 @@ def _align(base, cur):
     return m
 
 
-def merge3(base, ann, cur):
+def merge3(base, ann, cur, dropped=None):
     """base is ignored except for a consistency check: it must equal erase(ann)."""
     pairs = E.erase_idx(ann)
     b2 = [t for t, _ in pairs]
@@ -79,6 +98,8 @@ def merge3(base, ann, cur):
     m = _align(base, cur)
     # where do the runs go in cur?  after[c] = runs placed after cur[c] (c = -1: at the very start)
     after = {}
+    if dropped is None:
+        dropped = []
     for g, run in runs.items():
         left = m[g - 1] if g > 0 else -1
         right = m[g] if g < n else len(cur)
@@ -107,7 +128,9 @@ def merge3(base, ann, cur):
                     q -= 1
                 pos = m[q] if q >= 0 else -1
         else:
-            raise MergeConflict("annotation `%s` sits inside rewritten text: %s" % (" ".join(run[:12]), " ".join(base[max(0, g - 6):g + 6])))
+            # both neighbours were rewritten/deleted in /repo: the annotation belonged to code that is gone
+            dropped.append(" ".join(run[:16]))
+            continue
         after.setdefault(pos, []).append((g, run))
     out = []
     for g, run in sorted(after.get(-1, [])):
